@@ -729,6 +729,18 @@ def std_check(ctx, designs, gen, nprogs, per_prog, binds, nws=None, cov=None, th
     return res, fails
 
 
+def calibrate(ctx, module, cfg, what):
+    """a design configuration that carries a model-level mutant must FAIL: shows that the bounds of the scenario are
+    large enough to expose that class of defect (DESIGN 6.1)"""
+    if os.environ.get('VERIF_SKIP_MC'):
+        return
+    r = tlc_design(module, os.path.join(SPEC, cfg), coverage=False, heap='6g', timeout=1800)
+    if r['ok']:
+        raise Infra('calibration: %s/%s (%s) is not detected' % (module, cfg, what))
+    ctx.cov['design_runs'].append({'module': module, 'cfg': cfg + ' (calibration mutant: %s)' % what, 'result': r['violation'], 'expected': 'violation'})
+    ctx.log('   calibration mutant %s: %s' % (what, r['violation']))
+
+
 def ev(name, **kw):
     def pred(e):
         if e['e'] != name:
@@ -971,6 +983,7 @@ def check_C08(ctx):
 
 
 def check_C09(ctx):
+    calibrate(ctx, 'MC_Sync', 'MC_Sync_felockr_mut.cfg', 'mark_and_signal does not signal when the status is unchanged')
     std_check(ctx, [('MC_Sync', 'MC_Sync_felock.cfg'), ('MC_Sync', 'MC_Sync_felockr.cfg')], gen_felock_prog, 30, 6,
               [('status_not_published', mut_first(ev('FeMark'), drop_at)),
                ('returns_with_wrong_status', mut_first(lambda e: e['e'] == 'FeChk' and e['a'][1] != e['a'][2], lambda evs, i: set_arg(1, evs[i]['a'][2])(evs, i))),
@@ -1379,6 +1392,7 @@ def check_C13(ctx):
 
 
 def check_C14(ctx):
+    calibrate(ctx, 'MC_Sync', 'MC_Sync_once_mut.cfg', 'a once CAS that finds "completed" counts as won')
     std_check(ctx, [('MC_Sync', 'MC_Sync_once.cfg')], gen_once_prog, 30, 6,
               [('init_twice', mut_first(ev('U_OnceBody'), lambda evs, i: evs[:i + 1] + [evs[i]] + evs[i + 1:])),
                ('return_before_done', mut_first(lambda e: e['e'] == 'U_OnceBodyEnd', drop_at)),
